@@ -64,7 +64,7 @@ def gen_config(ctx, pid):
     q = ctx.quick()
     return dict(n=(2500 if q else 12000), seeds=[ctx.seed] if q else [ctx.seed, ctx.seed + 1000, ctx.seed + 2000])
 
-def run_engine_property(ctx, pid, oracles, feat=None, faults=0.25, n=None, nsteps=(1, 6), nedges=(2, 9), extra_hists=None, wf_reads=True, plan_accept=0):
+def run_engine_property(ctx, pid, oracles, feat=None, faults=0.25, n=None, nsteps=(1, 6), nedges=(2, 9), extra_hists=None, wf_reads=True, plan_accept=0, scan_accept=0):
     cfg = gen_config(ctx, pid)
     n = n or cfg['n']
     known = {k.get('id') for k in ctx.known_list if k.get('property') == pid}
@@ -125,6 +125,28 @@ def run_engine_property(ctx, pid, oracles, feat=None, faults=0.25, n=None, nstep
             ctx.corr_broken.append('plan model rejects ninja\'s trace of scenario %s: %s' % (sid, '; '.join(v[:2])))
             hh = [h for h in nodd if h.sid == sid]
             if hh: ctx.replay_file('plan-mismatch', hh[0].text())
+    # correspondence of the extracted dependency-scan model with ninja's scan (dyndep-free scenarios)
+    scanst = {}
+    if scan_accept and ctx.model:
+        import scanmodel, collections
+        os.environ['SCANMODEL_BIN'] = os.path.join(os.path.dirname(ctx.model), 'scan_run')
+        crashed = {hh.sid for hh, _, _ in getattr(ec.run_hists, 'crashes', [])}
+        nodd = [h for h in hists if not h.g0.dd_info and h.sid not in crashed and not any(getattr(s_, 'g', None) is not None and s_.g.dd_info for s_ in h.steps)][:scan_accept]
+        snaps = scanmodel.parse_snaps(out); st_ = collections.Counter(); jobs = []
+        for h in nodd:
+            for j in scanmodel.prepare(h, tr.get(h.sid, []), snaps.get(h.sid, [])): jobs.append((h,) + j)
+        outs = scanmodel.run_model([j[4] for j in jobs]) if jobs else []
+        nbad = 0
+        for (h, st, b, sn, line, c), o in zip(jobs, outs):
+            r = scanmodel.parse_model(o, c); st_['builds'] += 1; st_['result:' + r['kind']] += 1
+            ms = scanmodel.compare(r, sn, c)
+            if ms:
+                nbad += 1
+                if nbad <= 5:
+                    ctx.corr_broken.append('scan model differs from ninja\'s scan in scenario %s: %s' % (h.sid, '; '.join(ms[:2])))
+                    ctx.replay_file('scan-mismatch', h.text())
+        st_['mismatching builds'] = nbad
+        scanst = dict(st_)
     kinds = {}
     for h in hists:
         for s in h.steps: kinds[s.kind] = kinds.get(s.kind, 0) + 1
@@ -133,5 +155,5 @@ def run_engine_property(ctx, pid, oracles, feat=None, faults=0.25, n=None, nstep
                         'validations, pools, rspfile) x histories of %d-%d change steps (edit/touch/rm output/command+rsp change/deps change/droplog/dropdeps) x builds with '
                         'random targets, -j, -k, completion schedules and failing commands; one evaluation = one ninja invocation; non-trivial = it started at least one command' % (
                             nedges[0], nedges[1] - 1, nsteps[0], nsteps[1] - 1),
-                   samples=samples, distribution=dict(scenarios=len(hists), steps=kinds), traces_validated_against_model=accept.get('replayed', 0), plan_model_acceptance=accept)
+                   samples=samples, distribution=dict(scenarios=len(hists), steps=kinds), traces_validated_against_model=accept.get('replayed', 0), plan_model_acceptance=accept, scan_model_correspondence=scanst)
     return hists, tr
